@@ -477,6 +477,10 @@ pub trait TypedVisitor {
     /// Called before `visit`: the value contains an infinite float (classification of a recorded finding).
     fn note_infinite_float(&mut self, _present: bool) {}
 
+    /// Called before `visit`: the value is a collection whose only item is an absent value (classification of a
+    /// recorded finding: Recon has no token for an absent value, the record is printed `{}`).
+    fn note_lone_absent_item(&mut self, _present: bool) {}
+
     fn visit<T>(&mut self, type_name: &'static str, value: T, eq: fn(&T, &T) -> bool)
     where
         T: StructuralWritable + RecognizerReadable + Debug + Clone + Unpin,
@@ -534,6 +538,7 @@ impl TV {
             _ => false,
         };
         vis.note_infinite_float(infinite);
+        vis.note_lone_absent_item(matches!(self, TV::VecOptI32(v) if v.len() == 1 && v[0].is_none()));
         match self {
             TV::Unit => vis.visit(name, (), eq_std),
             TV::I32(n) => vis.visit(name, *n, eq_std),
